@@ -54,7 +54,7 @@ def tasks(tier, seed):
                     T.append({'name': 'layout ident o%d d%d N%d flags#%d' % (o, d, N, i // 64), 'order': o, 'dim': d, 'N': N, 'kind': 'ident', 'flags': fl[i:i + 64], 'seed': seed, 'timeout': to})
     for (o, d) in c['gen']:
         for N in c['genNs']:
-            for mode in (0, 1):
+            for mode in (0, 1, 3):
                 fl = c['genflags']
                 for i in range(0, len(fl), 64):
                     T.append({'name': 'layout gen%d o%d d%d N%d flags#%d' % (mode, o, d, N, i // 64), 'order': o, 'dim': d, 'N': N, 'kind': 'gen%d' % mode, 'flags': fl[i:i + 64], 'seed': seed, 'timeout': to})
@@ -74,7 +74,7 @@ def setup_maps(s, kind, rng):
     k, c = s.var('tmk', round(rng.uniform(0.5, 1.5), 3)), s.var('tmc', round(rng.uniform(0.05, 0.3), 3))
     m0, m1, b, q = s.var('sm0', round(rng.uniform(0.6, 1.6), 3)), s.var('sm1', round(rng.uniform(-0.8, 0.8), 3)), s.var('smb', round(rng.uniform(-1, 1), 3)), s.var('smq', 0.25)
     s.add('opt.tmap TMU', k, c)
-    s.add('opt.smap SMU', 1 if kind == 'gen1' else 0, m0, m1, b, q)
+    s.add('opt.smap SMU', {'gen1': 1, 'gen3': 3}.get(kind, 0), m0, m1, b, q)
     return (k, c), (m0, m1, b, q)
 
 
@@ -82,7 +82,7 @@ def build_layout_script(o, d, N, kind, fl, seed, tau_sign, roundtrip_region=None
     rng = C.rng_for(seed, 'C09', o, d, N, kind)
     s = D.Script()
     op = X.OptProblem(s, '', o, d, N, rng)
-    dof = X.dof_mode1(d) if kind == 'gen1' else X.dof_ident(d)
+    dof = X.dof_for(kind, d)
     pts, blocks, n = X.ref_layout(o, N, d, fl, dof)
     xs = op.xvars(n, tau_sign=tau_sign)
     maps = None
@@ -164,7 +164,7 @@ def check_layout(sc, o, d, N, kind, fl, op, xs, pts, blocks, n, maps, roundtrip)
             sc.real_eq('round trip: decode(initial guess) duration %d == reference duration' % i, 'SP2.seg.%d' % i, V(pr.h[i]))
         for i in range(N + 1):
             for dd in range(d):
-                if kind == 'gen1' and i in pts and pts[i][1] < d:
+                if kind in ('gen1', 'gen3') and i in pts and pts[i][1] < d:
                     continue   # fewer unconstrained than physical coordinates: not invertible on arbitrary reference points
                 sc.real_eq('round trip: waypoint %d[%d]' % (i, dd), 'SP2.pts.%d.%d' % (i, dd), V(pr.P[i][dd]))
         for fld, flag, need in X.BLOCKS:
